@@ -313,6 +313,7 @@ func main() {
 	})
 	samples = append(samples, map[string]any{"format": "dxf+svg", "lists": len(l2), "writers": "streaming and batch", "menu": menu2})
 	_ = r2
+	c.Guard("decoded vertices / lines compared > 5000 (files were written and read back by the independent readers)", trans > 5000, fmt.Sprint(trans))
 	c.Finish(vlib.Coverage{
 		States: states, Transitions: trans, Evaluations: states, Nontrivial: states - 3,
 		Rule:        "states = (list, writer path) pairs written and decoded with go3mf.OpenReader / dxf.FromFile / encoding/xml; transitions = vertices / lines compared; non-trivial = non-empty lists",
